@@ -208,6 +208,7 @@ type Exec struct {
 	Report     map[string]string
 	ReportCtx  []byte
 	// observations
+	Unattributed bool // oracle-side copy used as a barrier in per-queue sequences (see execsByQueue)
 	QueueSeen  string // queue whose task carries exactly these contexts while the hook runs ("" = not identified)
 	HeadIdx    int    // position of that task in its queue (0 = head)
 	ParseErr   string
